@@ -184,13 +184,15 @@ where
                             .unwrap_or_else(|_| Err(io::Error::from(io::ErrorKind::BrokenPipe)));
 
                         let _ = service_stream.shutdown();
-                        r1?;
 
+                        // the client side also ends when the service hangs up: what the
+                        // service sent before that still has to reach the client
                         let _ = rx_end.recv()?;
                         let r2 = copy2
                             .join()
                             .unwrap_or_else(|_| Err(io::Error::from(io::ErrorKind::BrokenPipe)));
 
+                        r1?;
                         r2?;
                     }
 
